@@ -30,7 +30,7 @@
 (*       CASE line per string (expected verdict and decomposition).        *)
 (*   MC_VersionString_lts*.cfg  LtsSpec: objects reachable from LtsStart   *)
 (*       under every assignment of LtsValues, closed up to Len(full) <=    *)
-(*       MaxLen; invariants ObjConsistent, ImplRefines, property           *)
+(*       MaxLen; invariants KeyFresh, ObjConsistent, ImplRefines, property *)
 (*       AssignOrRollback; prints the complete LTS as EDGE lines.          *)
 (* Spec-level negative controls (constants switching in the buggy code):   *)
 (*   DollarAnchor  = TRUE  ('$' instead of '\Z': a trailing LF is accepted)*)
@@ -38,9 +38,19 @@
 (*   UnicodeDigits = TRUE  ('\d' instead of '[0-9]' in the epoch)          *)
 (*                         -> AcceptExact violated by <<1635, 58, 49>>,    *)
 (*   NoRollback    = TRUE  (failed assignment keeps the private attribute) *)
-(*                         -> ImplRefines violated.                        *)
-(* All three were run and do make TLC report the violation (c14.py runs    *)
+(*                         -> ImplRefines violated,                        *)
+(*   StaleKey      = TRUE  (an assignment keeps the memoised comparison    *)
+(*                         key of the old version) -> KeyFresh violated.   *)
+(* All four were run and do make TLC report the violation (c14.py runs     *)
 (* them in every check and fails with exit 2 if one of them passes).       *)
+(*                                                                         *)
+(* The object carries a fifth, derived component `key`: the parsed tuple   *)
+(* its comparisons and its hash work on (<<epoch, upstream, revision>>).   *)
+(* KeyFresh says the whole object state is a function of `full` alone: no  *)
+(* memoised / cached derived state survives an assignment.  The binding    *)
+(* observes `key` behaviourally: v must be indistinguishable (==, <, >,    *)
+(* hash, str, attributes, version_compare, order against fixed probes)     *)
+(* from a fresh object built from v.full_version.                          *)
 (***************************************************************************)
 EXTENDS Naturals, Integers, Sequences, FiniteSets, TLC, Json
 
@@ -49,7 +59,8 @@ CONSTANTS Alphabet,       \* bnd: code points strings are built from
           StartStrings,   \* lts: texts offered to Construct / SetFull
           AssignValues,   \* lts: values offered to the component assignments (Absent = None)
           Emit,           \* TRUE: print CASE / EDGE lines
-          DollarAnchor, UnicodeDigits, NoRollback      \* negative controls, FALSE in property runs
+          DollarAnchor, UnicodeDigits, NoRollback,     \* negative controls, FALSE in property runs
+          StaleKey
 
 VARIABLES inp,            \* bnd: the string under construction (<<>> in lts)
           obj,            \* the version object
@@ -105,8 +116,13 @@ Unspec(s) == LET d == Decompose(s) IN
 
 ----------------------------------------------------------------------------
 \* reference layer: the object
-NoObj    == [full |-> Absent, epoch |-> Absent, upstream |-> Absent, revision |-> Absent]
-ObjOf(s) == LET d == Decompose(s) IN [full |-> s, epoch |-> d.epoch, upstream |-> d.upstream, revision |-> d.revision]
+\* the derived comparison key of a version text: what comparisons and hash are computed from
+VKey(s)  == LET d == Decompose(s) IN <<d.epoch, d.upstream, d.revision>>
+NoObj    == [full |-> Absent, epoch |-> Absent, upstream |-> Absent, revision |-> Absent,
+             key |-> <<Absent, Absent, Absent>>]
+ObjOf(s) == LET d == Decompose(s) IN [full |-> s, epoch |-> d.epoch, upstream |-> d.upstream, revision |-> d.revision,
+                                      key |-> VKey(s)]
+Attrs(o) == [full |-> o.full, epoch |-> o.epoch, upstream |-> o.upstream, revision |-> o.revision]
 Comps    == {"epoch", "upstream", "revision"}
 VWith(o, comp, v) == [epoch    |-> IF comp = "epoch" THEN v ELSE o.epoch,
                       upstream |-> IF comp = "upstream" THEN v ELSE o.upstream,
@@ -153,7 +169,8 @@ ReMatch(s) == LET runs == {k \in 0..Len(s) : \A j \in 1..k : ReDigit(s[j])}
               IN IF withEp.ok THEN withEp ELSE ReTail(s, 1, Absent)
 \* _set_full_version: match, then "no epoch => no colon in the upstream"
 Accept(s)  == LET m == ReMatch(s) IN m.ok /\ ~(m.epoch = Absent /\ VHas(m.upstream, Colon))
-ImplObj(s) == LET m == ReMatch(s) IN [full |-> s, epoch |-> m.epoch, upstream |-> m.upstream, revision |-> m.revision]
+ImplObj(s) == LET m == ReMatch(s) IN [full |-> s, epoch |-> m.epoch, upstream |-> m.upstream, revision |-> m.revision,
+                                      key |-> <<m.epoch, m.upstream, m.revision>>]
 ImplDecompose(s) == LET m == ReMatch(s) IN [epoch |-> m.epoch, upstream |-> m.upstream, revision |-> m.revision]
 ImplSetFull(o, s) == IF Accept(s) THEN [res |-> "ok", obj |-> ImplObj(s)] ELSE [res |-> "ValueError", obj |-> o]
 \* _update_full_version: note the truthiness test on the revision
@@ -166,7 +183,8 @@ ImplAssign(o, comp, v) ==
         t == ImplText(p)
     IN IF Accept(t) THEN [res |-> "ok", obj |-> ImplObj(t)]
        ELSE [res |-> "ValueError",
-             obj |-> IF NoRollback THEN [full |-> o.full, epoch |-> p.epoch, upstream |-> p.upstream, revision |-> p.revision]
+             obj |-> IF NoRollback THEN [full |-> o.full, epoch |-> p.epoch, upstream |-> p.upstream, revision |-> p.revision,
+                                         key |-> o.key]
                      ELSE ImplObj(ImplText(o))]
 
 ----------------------------------------------------------------------------
@@ -192,7 +210,9 @@ ZonesDisjoint  == ~(Valid(inp) /\ Unspec(inp))
 ----------------------------------------------------------------------------
 \* the object's labelled transition system
 Edge(op, v, o) == Emit => PrintT(<<"EDGE", ToJson([from |-> obj, op |-> op, args |-> <<v>>, res |-> o.res, to |-> o.obj])>>)
-Apply(op, v, o) == obj' = o.obj /\ res' = o.res /\ UNCHANGED inp /\ Edge(op, v, o)
+\* StaleKey (negative control): an assignment on an existing object keeps the old memoised key
+Apply(op, v, o) == /\ obj' = IF StaleKey /\ obj # NoObj /\ op # "copy" THEN [o.obj EXCEPT !.key = obj.key] ELSE o.obj
+                   /\ res' = o.res /\ UNCHANGED inp /\ Edge(op, v, o)
 Fits(s) == Len(s) <= MaxLen
 
 LtsInit == inp = <<>> /\ obj = NoObj /\ res = "none"
@@ -214,11 +234,13 @@ ObjView == obj              \* res is an output, inp is constant here
 
 \* every object that exists is the decomposition of its own valid, specified full text
 ObjConsistent == obj # NoObj => /\ Valid(obj.full) /\ ~Unspec(obj.full)
-                                /\ obj = ObjOf(obj.full)
+                                /\ Attrs(obj) = Attrs(ObjOf(obj.full))
                                 /\ Recompose(obj) = obj.full
+\* the object state is a function of `full` alone: the derived comparison key is never stale
+KeyFresh      == obj # NoObj => obj.key = VKey(obj.full)
 \* "either the recomposed valid version or ValueError leaving the object exactly as it was"
-AssignOrRollback == [][\/ res' = "ok" /\ Valid(obj'.full) /\ obj' = ObjOf(obj'.full)
-                       \/ res' \in {"ValueError", "unspec"} /\ obj' = obj]_vars
+AssignOrRollback == [][\/ res' = "ok" /\ Valid(obj'.full) /\ Attrs(obj') = Attrs(ObjOf(obj'.full))
+                       \/ res' \in {"ValueError", "unspec"} /\ Attrs(obj') = Attrs(obj)]_vars
 \* the transcription of the code agrees with the reference wherever the statement decides
 ImplRefines ==
     obj # NoObj =>
